@@ -3,7 +3,7 @@
 From Coq Require Import List ZArith Bool Lia Permutation.
 From SVC Require Import Base.AMap Base.Res Base.Dec Model.Types Model.Pricing
   Model.Handlers Model.EndBlock Model.Step Proofs.Inv Proofs.Lemmas Proofs.ReqLemmas
-  Proofs.DecProofs Proofs.PricingProofs Proofs.CtxOps.
+  Proofs.DecProofs Proofs.PricingProofs Proofs.CtxOps Proofs.WdLemmas.
 Import ListNotations.
 Open Scope Z_scope.
 
@@ -181,7 +181,8 @@ Qed.
 Lemma escrow_withdraw cfg s owner prov ok s' :
   Inv cfg s -> h_withdraw s owner prov ok = Ok s' -> I_escrow s'.
 Proof.
-  intros Hinv H. unfold h_withdraw in H. inv_ok H.
+  intros Hinv H. unfold h_withdraw in H.
+  rewrite (withdraw_dacct s owner (inv_wd _ _ Hinv)) in H. inv_ok H.
   pose proof (inv_escrow _ _ Hinv) as He. unfold I_escrow in He.
   pose proof (inv_wf _ _ Hinv) as Hwf.
   assert (Hwe : wf (earned s)) by apply Hwf.
